@@ -576,4 +576,115 @@ theorem lazyLoad_refines {sys : Sys} {T : Tree} {V : List (Option Node)} (hown :
         simp only [pureViews, eP]
         exact Own.of_stable H hown hst hc hext.db hext.roots (views_push H (views_stable H hst hown.views) hrep)
 
+theorem readWorking_refines {sys : Sys} {T : Tree} {V : List (Option Node)} (hown : Own H sys T V) (r : Read)
+    (fuel : Nat) (hfuel : Adequate fuel T V) :
+    ∃ sys', stepH H Cfg.asIs fuel sys (.readWorking r) = some (sys', .read (some (readRoot T.root r))) ∧
+      Own H sys' T V ∧ Ext sys.st sys'.st := by
+  obtain ⟨st', e, hext, hc⟩ := readRootH_spec H r fuel All sys.st T.root sys.tree.root hfuel.1 hown.cache hown.root
+  have hst := RepStable.of_ext H hext
+  exact ⟨{ sys with st := st' }, by simp [stepH, e],
+    Own.of_stable H hown hst hc hext.db hext.roots (views_stable H hst hown.views), hext⟩
+
+theorem readView_refines {sys : Sys} {T : Tree} {V : List (Option Node)} (hown : Own H sys T V) (i : Nat) (r : Read)
+    (fuel : Nat) (hfuel : Adequate fuel T V) :
+    ∃ sys', stepH H Cfg.asIs fuel sys (.readView i r) =
+        some (sys', .read ((V[i]?).map (fun root => readRoot root r))) ∧
+      Own H sys' T V ∧ Ext sys.st sys'.st := by
+  cases hv : sys.views[i]? with
+  | none =>
+    have : V[i]? = none := by
+      rw [List.getElem?_eq_none_iff] at hv ⊢
+      rw [hown.views.1]; exact hv
+    exact ⟨sys, by simp [stepH, hv, this], hown, ExtOn.refl _ _⟩
+  | some h =>
+    have hlt : i < sys.views.length := by
+      rcases Nat.lt_or_ge i sys.views.length with h' | h'
+      · exact h'
+      · rw [List.getElem?_eq_none h'] at hv; cases hv
+    have hlt' : i < V.length := by rw [hown.views.1]; exact hlt
+    have hV : V[i]? = some V[i] := List.getElem?_eq_getElem hlt'
+    have hrep := hown.views.2 i V[i] h hV hv
+    have hf : ∀ t, V[i] = some t → depth t < fuel := fun t ht => hfuel.2 V[i] (List.getElem_mem hlt') t ht
+    obtain ⟨st', e, hext, hc⟩ := readRootH_spec H r fuel All sys.st V[i] h hf hown.cache hrep
+    have hst := RepStable.of_ext H hext
+    exact ⟨{ sys with st := st' }, by simp [stepH, hv, hV, e],
+      Own.of_stable H hown hst hc hext.db hext.roots (views_stable H hst hown.views), hext⟩
+
+/-- **heap_refines_pure.**  Every heap-level operation (as-is clone discipline, injective hash,
+adequate fuel) succeeds, answers what the pure model answers, re-establishes the ownership
+invariant for the pure model's next state, keeps **every** representation judgement, and lets every
+object evolve only by the write-once discipline `cellLe`. -/
+theorem step_refines (hinj : Function.Injective H) {sys : Sys} {T : Tree} {V : List (Option Node)}
+    (hown : Own H sys T V) (op : HOp) (fuel : Nat) (hfuel : Adequate fuel T V) :
+    ∃ sys', stepH H Cfg.asIs fuel sys op = some (sys', pureOut H T V op) ∧
+      Own H sys' (pureStep T op) (pureViews T V op) ∧ RepStable H sys.st sys'.st ∧ Grows sys.st sys'.st := by
+  cases op with
+  | set k v =>
+    obtain ⟨sys', e, ho, hext⟩ := set_refines H hown k v fuel hfuel
+    exact ⟨sys', e, ho, RepStable.of_ext H hext, Grows.of_Ext hext⟩
+  | remove k =>
+    obtain ⟨sys', e, ho, hext⟩ := remove_refines H hown k fuel hfuel
+    exact ⟨sys', e, ho, RepStable.of_ext H hext, Grows.of_Ext hext⟩
+  | save => exact save_refines H hinj hown fuel hfuel
+  | rollback =>
+    obtain ⟨sys', e, ho, hst⟩ := rollback_refines H hown fuel
+    exact ⟨sys', e, ho, by rw [hst]; exact RepStable.refl H _, by rw [hst]; exact Grows.refl _⟩
+  | workingHash => exact workingHash_refines H hown fuel hfuel
+  | getImmutable v =>
+    obtain ⟨sys', e, ho, hext⟩ := getImmutable_refines H hown v fuel
+    exact ⟨sys', e, ho, RepStable.of_ext H hext, Grows.of_Ext hext⟩
+  | lazyLoad target =>
+    obtain ⟨sys', e, ho, hext⟩ := lazyLoad_refines H hown target fuel
+    exact ⟨sys', e, ho, RepStable.of_ext H hext, Grows.of_Ext hext⟩
+  | readWorking r =>
+    obtain ⟨sys', e, ho, hext⟩ := readWorking_refines H hown r fuel hfuel
+    exact ⟨sys', e, ho, RepStable.of_ext H hext, Grows.of_Ext hext⟩
+  | readView i r =>
+    obtain ⟨sys', e, ho, hext⟩ := readView_refines H hown i r fuel hfuel
+    exact ⟨sys', e, ho, RepStable.of_ext H hext, Grows.of_Ext hext⟩
+
+/-- The pure model's run: final tree, final view trees, answers. -/
+def pureRun (T : Tree) (V : List (Option Node)) : List HOp → Tree × List (Option Node) × List HOut
+  | [] => (T, V, [])
+  | op :: rest =>
+    let r := pureRun (pureStep T op) (pureViews T V op) rest
+    (r.1, r.2.1, pureOut H T V op :: r.2.2)
+
+/-- Fuel is adequate along a whole history. -/
+def AdequateRun (fuel : Nat) : Tree → List (Option Node) → List HOp → Prop
+  | T, V, [] => Adequate fuel T V
+  | T, V, op :: rest => Adequate fuel T V ∧ AdequateRun fuel (pureStep T op) (pureViews T V op) rest
+
+/-- **Histories.** For every operation list the heap model succeeds, gives the pure model's
+answers, ends in a state owning the pure model's final state, and every representation judgement
+of the start state still holds at the end. -/
+theorem run_refines (hinj : Function.Injective H) (fuel : Nat) :
+    ∀ (ops : List HOp) (sys : Sys) (T : Tree) (V : List (Option Node)), Own H sys T V → AdequateRun fuel T V ops →
+      ∃ sys', runH H Cfg.asIs fuel sys ops = some (sys', (pureRun H T V ops).2.2) ∧
+        Own H sys' (pureRun H T V ops).1 (pureRun H T V ops).2.1 ∧ RepStable H sys.st sys'.st ∧ Grows sys.st sys'.st := by
+  intro ops
+  induction ops with
+  | nil =>
+    intro sys T V hown _
+    exact ⟨sys, rfl, hown, RepStable.refl H _, Grows.refl _⟩
+  | cons op rest ih =>
+    intro sys T V hown had
+    obtain ⟨sys1, e1, ho1, hs1, hg1⟩ := step_refines H hinj hown op fuel had.1
+    obtain ⟨sys2, e2, ho2, hs2, hg2⟩ := ih sys1 _ _ ho1 had.2
+    exact ⟨sys2, by simp only [runH, e1, e2, Option.map_some, pureRun], ho2, hs1.trans H hs2, hg1.trans hg2⟩
+
+/-- The empty system owns the empty pure tree. -/
+theorem Own.init (cacheSize : Nat) : Own H { st := { cacheSize := cacheSize } } Tree.empty [] where
+  cache := by intro hh a h; cases h
+  dbwf := by intro hh s h; cases h
+  root := trivial
+  last := trivial
+  version := rfl
+  tversions := rfl
+  roots := rfl
+  indb := by intro p hp; cases hp
+  latest := rfl
+  wf := Tree.WF.empty
+  views := ⟨rfl, fun i root h h1 _ => by simp at h1⟩
+
 end Iavl.Heap
